@@ -35,7 +35,7 @@ def describe(tier):
 
 
 def blocks(tier):
-    bl = K.pair_blocks(tier) + K.many_blocks(tier) + K.run_blocks(tier)
+    bl = K.pair_blocks(tier) + K.many_blocks(tier) + K.run_blocks(tier) + K.block_blocks(tier)
     return [(f, dict(p, tier=tier)) for f, p in bl]
 
 
@@ -51,8 +51,9 @@ def _call(acc, site, case, thunk):
 def check_pair(A, B, acc, uname):
     import catii.set_operations as so
 
-    a, b = K.arr(A), K.arr(B)
     case = {"u": uname, "A": A, "B": B}
+    A, B = K.expand(A), K.expand(B)
+    a, b = K.arr(A), K.arr(B)
     _call(acc, "oob:intersect", case, lambda: so.set_intersect_merge_np(a, b))
     _call(acc, "oob:union", case, lambda: so.set_union_merge_np(a, b))
     _call(acc, "oob:difference", case, lambda: so.set_difference_merge_np(a, b))
@@ -68,7 +69,7 @@ def check_pair(A, B, acc, uname):
 def check_many(lst, acc, fam):
     import catii.set_operations as so
 
-    arrays = [K.arr(x) for x in lst]
+    arrays = [K.arr(K.expand(x)) for x in lst]
     _call(acc, "oob:union_many", {"fam": fam, "arrays": [list(x) for x in lst]}, lambda: so.set_union_merge_many(arrays))
 
 
@@ -81,6 +82,13 @@ def run_block(family, p, acc):
                 check_pair(A, B, acc, "runs")
                 check_pair(B, A, acc, "runs")
                 acc.case(("runs", tuple(A), tuple(B)), nontrivial=True, outcome=("runs", K.overlapping(A, B)), sample=lambda: {"universe": "runs", "A": A, "B": B})
+        return
+    if family == "blocked":
+        descs = K.block_descs(tier)
+        for da in descs[p["a0"]:p["a1"]]:
+            for db in descs:
+                check_pair(da, db, acc, "blocked")
+                acc.case(("blocked", da["pat"], da["n"], db["pat"], db["n"]), nontrivial=True, outcome=("blocked", da["pat"], db["pat"]), sample=lambda: {"universe": "blocked", "A": da, "B": db})
         return
     if family == "pairs":
         uni = K.universes(tier)[p["u"]]
